@@ -12,6 +12,41 @@ pub mod epochtext;
 pub mod f64ops;
 pub mod wrappers;
 
+/// Deserialize JSON `text` through every serde_json entry point — `from_str`, `from_slice` (both can lend the
+/// string), `from_reader`, `from_value` and the same string written with `\u` escapes (none of which can) — and
+/// answer `Ok(result of from_str)` when all agree, `Err(())` when they differ.
+pub fn json_all<T: serde::de::DeserializeOwned + PartialEq>(text: &str) -> Result<Option<T>, ()> {
+    let base: Option<T> = serde_json::from_str::<T>(text).ok();
+    let mut others: Vec<Option<T>> = vec![
+        serde_json::from_slice::<T>(text.as_bytes()).ok(),
+        serde_json::from_reader::<_, T>(text.as_bytes()).ok(),
+    ];
+    if let Ok(v) = serde_json::from_str::<serde_json::Value>(text) {
+        if let serde_json::Value::String(inner) = &v {
+            // every character that is not an ASCII letter, digit or blank as an escape, and the first one too
+            let mut esc = String::from("\"");
+            for (i, c) in inner.chars().enumerate() {
+                if i > 0 && (c.is_ascii_alphanumeric() || c == ' ') {
+                    esc.push(c);
+                } else {
+                    let mut buf = [0u16; 2];
+                    for u in c.encode_utf16(&mut buf) {
+                        esc.push_str(&format!("\\u{:04x}", u));
+                    }
+                }
+            }
+            esc.push('"');
+            others.push(serde_json::from_str::<T>(&esc).ok());
+        }
+        others.push(serde_json::from_value::<T>(v).ok());
+    }
+    if others.iter().all(|o| *o == base) {
+        Ok(base)
+    } else {
+        Err(())
+    }
+}
+
 pub fn salt(prop: &str) -> u64 {
     let mut h: u64 = 0xcbf29ce484222325;
     for b in prop.bytes() {
